@@ -36,7 +36,21 @@ SHAPES = {
  "mref": ("&mut u64", "r.ptr = x as *mut u64 as usize; r.payload = *x; *x = r.wval;",
           "let mut cell: u64 = kani::any(); let cell0 = cell; let ep = &cell as *const u64 as usize;", "&mut cell",
           'assert!(rec.ptr == ep && rec.payload == cell0 && cell == wval, "C02 &mut u64 points at the caller\'s value and the callee\'s write is visible");'),
+ "bool": ("bool", "r.variant = x as u8;", "let bv: bool = kani::any();", "bv", 'assert!(rec.variant == bv as u8, "C02 bool arrives unchanged");'),
+ "chr":  ("char", "r.payload = x as u64;", "let cv: char = kani::any();", "cv", 'assert!(rec.payload == cv as u64, "C02 char arrives unchanged");'),
+ "u128": ("u128", "r.payload = x as u64; r.elem = (x >> 64) as u64;", "let wv: u128 = kani::any();", "wv", 'assert!(rec.payload == wv as u64 && rec.elem == (wv >> 64) as u64, "C02 u128 arrives unchanged (both halves)");'),
+ "i128": ("i128", "r.payload = x as u64; r.elem = (x >> 64) as u64;", "let wv: i128 = kani::any();", "wv", 'assert!(rec.payload == wv as u64 && rec.elem == (wv >> 64) as u64, "C02 i128 arrives unchanged (both halves)");'),
+ "f64":  ("f64", "r.payload = x.to_bits();", "let fbits: u64 = kani::any(); let fv = f64::from_bits(fbits);", "fv", 'assert!(rec.payload == fbits, "C02 f64 arrives with the same bits");'),
+ "arr":  ("[u32; 3]", "r.payload = x[0] as u64 | (x[1] as u64) << 32; r.elem = x[2] as u64;", "let av: [u32; 3] = kani::any();", "av", 'assert!(rec.payload == av[0] as u64 | (av[1] as u64) << 32 && rec.elem == av[2] as u64, "C02 array by value arrives unchanged");'),
+ "tup":  ("cglue::tuple::CTup2<u32, u64>", "r.payload = x.0 as u64; r.elem = x.1;", "let (t0, t1): (u32, u64) = kani::any();", "cglue::tuple::CTup2(t0, t1)", 'assert!(rec.payload == t0 as u64 && rec.elem == t1, "C02 C tuple arrives unchanged, fields in order");'),
+ "optm": ("Option<&mut u64>", "r.variant = x.is_some() as u8; if let Some(p) = x { r.ptr = p as *mut u64 as usize; r.payload = *p; *p = r.wval; }",
+          "let (some, mut cell): (bool, u64) = kani::any(); let cell0 = cell; let ep = &cell as *const u64 as usize;", "if some { Some(&mut cell) } else { None }",
+          'assert!(rec.variant == some as u8 && (!some || (rec.ptr == ep && rec.payload == cell0 && cell == wval)) && (some || cell == cell0), "C02 Option<&mut u64> arrives with the same variant and address; the callee\'s write is visible");'),
+ "optres": ("Option<Result<u32, u8>>", "r.variant = match &x { None => 0, Some(Ok(_)) => 1, Some(Err(_)) => 2 }; r.payload = match x { None => 0, Some(Ok(v)) => v as u64, Some(Err(e)) => e as u64 };",
+          "let (k, pv, ev): (u8, u32, u8) = kani::any(); kani::assume(k < 3);", "match k { 0 => None, 1 => Some(Ok(pv)), _ => Some(Err(ev)) }",
+          'assert!(rec.variant == k && rec.payload == match k { 0 => 0, 1 => pv as u64, _ => ev as u64 }, "C02 nested Option<Result<..>> arrives with the same variants and payload");'),
 }
+QUICK_SKIP = {"chr", "i128", "f64", "tup", "optres"}
 RETS = {
  "rsl":  ("&[u8]", "&self.buf[r.roff..r.roff + r.rlen]", 'assert!(ret.as_ptr() as usize == bufp + roff && ret.len() == rlen, "C02 returned &[u8] has the produced address and length");'),
  "rst":  ("&str", "unsafe { core::str::from_utf8_unchecked(&self.buf[r.roff..r.roff + r.rlen]) }", 'assert!(ret.as_ptr() as usize == bufp + roff && ret.len() == rlen, "C02 returned &str has the produced address and length");'),
@@ -44,7 +58,12 @@ RETS = {
  "rres": ("Result<u32, u8>", "if r.out_variant == 0 { Ok(r.out_payload as u32) } else { Err(r.out_payload as u8) }", 'assert!(ret == if ov == 0 { Ok(op as u32) } else { Err(op as u8) }, "C02 Result<u32,u8> result returns unchanged");'),
  "rs3":  ("S3", "S3 { a: r.out_payload, b: r.wval as u32 }", 'assert!(ret == S3 { a: op, b: wval as u32 }, "C02 by-value struct result returns unchanged");'),
  "ropr": ("Option<&u64>", "if r.out_variant == 1 { Some(&self.cell) } else { None }", 'assert!(ret.is_some() == (ov == 1) && ret.map(|p| p as *const u64 as usize == cellp).unwrap_or(true), "C02 Option<&u64> result returns unchanged");'),
+ "rbool": ("bool", "r.out_variant == 1", 'assert!(ret == (ov == 1), "C02 bool result returns unchanged");'),
+ "ru128": ("u128", "(r.out_payload as u128) << 64 | r.wval as u128", 'assert!(ret == (op as u128) << 64 | wval as u128, "C02 u128 result returns unchanged (both halves)");'),
+ "rtup": ("cglue::tuple::CTup2<u32, u64>", "cglue::tuple::CTup2(r.wval as u32, r.out_payload)", 'assert!(ret.0 == wval as u32 && ret.1 == op, "C02 C tuple result returns unchanged, fields in order");'),
+ "rarr": ("[u32; 3]", "[r.wval as u32, r.out_payload as u32, r.out_variant as u32]", 'assert!(ret == [wval as u32, op as u32, ov as u32], "C02 array result returns unchanged");'),
 }
+QUICK_SKIP_RET = {"rtup", "rarr"}
 
 
 def gen(tier):
@@ -54,6 +73,8 @@ def gen(tier):
     for sh, (ty, record, setup, argexpr, expect) in SHAPES.items():
         for rk, recv in RECV.items():
             if tier == "quick" and rk == "v" and sh in ("sl64", "optr", "s3"):
+                continue
+            if tier == "quick" and (sh in QUICK_SKIP or (sh in ("bool", "u128", "arr", "optm") and rk != "r")):
                 continue
             name = f"A_{sh}_{rk}"
             lt = "<'a>" if False else ""
@@ -92,6 +113,8 @@ fn p_arg_{sh}_{rk}() {{
     for rsh, (ty, produce, expect) in RETS.items():
         for rk, recv in (("r", "&self"), ("m", "&mut self")):
             if tier == "quick" and rk == "m" and rsh in ("ropt", "rs3"):
+                continue
+            if tier == "quick" and (rsh in QUICK_SKIP_RET or (rsh in ("rbool", "ru128") and rk == "m")):
                 continue
             tag += 1
             name = f"R_{rsh}_{rk}"
